@@ -146,3 +146,52 @@ def c05(tier, seed):
     c.required_counters = ["waits", "timedwaits", "timeouts", "signals", "broadcasts", "waits_by_external",
                            "wrong_mutex_rejected", "signal_with_no_waiter", "shapes"]
     return c
+
+
+@prop("C09")
+def c09(tier, seed):
+    c = Check("C09", tier, seed)
+    q = tier == "quick"
+    c.rule = ("each case = one scenario: an eventual (nbytes 0/1/8/100/4096) or a future (0/1/2/3/7/64 compartments, with or "
+              "without callback) used for 1..N ready epochs separated by reset; per epoch racing setters (more attempts than "
+              "needed), 0-9 waiters and 0-3 testers of ULT/tasklet/external kind; non-trivial = some waiter really blocked "
+              "before the set (WAITLIST_ULT_WAIT or external futex wait) ; distinct = distinct (variant, delay profile, "
+              "configuration x object-shape signature)")
+    c.assumptions = ["the winner of racing sets is identified by its return code; observers' reads are compared with the "
+                     "winner's byte pattern after the epoch"]
+    profiles = ["off", "uniform", hammer(*WAITLIST_HAMMER), "heavy"]
+    soup(c, "h_evfut", profiles, q, seed,
+         mon_args=lambda q: ["--scenarios", 8 if q else 24, "--epochs", 40 if q else 200],
+         san_args=lambda q: ["--scenarios", 4, "--epochs", 15],
+         squeeze_args=lambda q: ["--scenarios", 4, "--epochs", 12 if q else 60])
+    c.nontrivial = lambda r: has_cov(r, "WAITLIST_ULT_WAIT")
+    c.required_points = ["WAITLIST_ULT_WAIT", "BROADCAST_ULT", "BROADCAST_EXT", "EVENTUAL_SET_REJECTED", "FUTURE_CALLBACK"]
+    c.required_counters = ["eventual_epochs", "future_epochs", "sets_ok", "sets_rejected", "waits_returned",
+                           "waits_started_before_set", "tests_ready", "tests_not_ready", "callbacks",
+                           "future_0_compartments_epochs"]
+    return c
+
+
+@prop("C10")
+def c10(tier, seed):
+    c = Check("C10", tier, seed)
+    q = tier == "quick"
+    c.rule = ("each case = one scenario: scripted reader-inclusion phases (two external readers; two ULT readers on "
+              "different streams) followed by a soup of 2-25 ULT/external lockers (tasklet callers may be rejected) with "
+              "5/20/50/90% writes, yields inside critical sections; non-trivial = lockers really blocked (COND/WAITLIST "
+              "waits seen) and several readers were inside together; distinct = distinct (variant, delay, configuration "
+              "signature)")
+    c.assumptions = ["reader/writer presence is registered right after the acquiring call returns and removed right "
+                     "before unlock is called"]
+    profiles = ["off", "uniform", hammer(*COND_HAMMER), hammer("MUTEX_LOCK_AFTER_FAIL", "MUTEX_LOCK_BEFORE_RETRY",
+                                                               "MUTEX_UNLOCK_BEFORE_RELEASE", "MUTEX_UNLOCK_BEFORE_BROADCAST")]
+    soup(c, "h_rwlock", profiles, q, seed,
+         mon_args=lambda q: ["--rounds", 8 if q else 24, "--iters", 1200 if q else 6000],
+         san_args=lambda q: ["--rounds", 4, "--iters", 300],
+         squeeze_args=lambda q: ["--rounds", 4, "--iters", 250 if q else 1000])
+    c.nontrivial = lambda r: has_cov(r, "WAITLIST_ULT_WAIT") and (r.result or {}).get("counters", {}).get(
+        "reads_with_other_readers_inside", 0) > 0
+    c.required_points = ["WAITLIST_ULT_WAIT", "BROADCAST_ULT", "BROADCAST_EXT"]
+    c.required_counters = ["read_acquisitions", "write_acquisitions", "scripted_reader_inclusion",
+                           "reads_with_other_readers_inside", "yields_inside_cs"]
+    return c
